@@ -59,22 +59,26 @@ func (r *BufferReader) Seek(offset int64, whence int) (int64, error) {
 }
 
 func (r *BufferReader) Skip(n int) error {
-	newPos := r.pos + n
-	if newPos < 0 {
+	if n < -r.pos {
 		return errors.New("encoding.BufferReader.Skip: negative position")
 	}
-	if newPos > len(r.buf) {
+	// Compare against the remaining length: r.pos+n may overflow for huge n.
+	if n > len(r.buf)-r.pos {
 		return errors.New("encoding.BufferReader.Skip: position out of range")
 	}
-	r.pos = newPos
+	r.pos += n
 	return nil
 }
 
 func (r *BufferReader) ReadWire(l int) (Wire, error) {
+	if l < 0 {
+		return nil, ErrBufferOverflow
+	}
 	if r.pos >= len(r.buf) && l > 0 {
 		return nil, io.EOF
 	}
-	if r.pos+l > len(r.buf) {
+	// Compare against the remaining length: r.pos+l may overflow for huge l.
+	if l > len(r.buf)-r.pos {
 		return nil, io.ErrUnexpectedEOF
 	}
 	p := r.pos
@@ -83,7 +87,11 @@ func (r *BufferReader) ReadWire(l int) (Wire, error) {
 }
 
 func (r *BufferReader) ReadBuf(l int) (Buffer, error) {
-	if r.pos+l > len(r.buf) {
+	if l < 0 {
+		return nil, ErrBufferOverflow
+	}
+	// Compare against the remaining length: r.pos+l may overflow for huge l.
+	if l > len(r.buf)-r.pos {
 		return nil, io.ErrUnexpectedEOF
 	}
 	p := r.pos
@@ -107,7 +115,7 @@ func (r *BufferReader) Range(start, end int) Wire {
 }
 
 func (r *BufferReader) Delegate(l int) ParseReader {
-	if l < 0 || r.pos+l > len(r.buf) {
+	if l < 0 || l > len(r.buf)-r.pos {
 		return NewBufferReader([]byte{})
 	}
 	subBuf := r.buf[r.pos : r.pos+l]
